@@ -5,7 +5,8 @@ the 32-byte embedding threshold, small pools so values repeat (shared sub-tries)
 ALPHA_ADV = [0x00, 0x01, 0x10, 0x11, 0x12, 0xFF]
 
 VALUE_LENGTHS = [1, 1, 2, 3, 20, 24, 25, 26, 27, 28, 29, 30, 31, 32, 33, 34, 40, 40, 55, 56, 300,
-                 1, 2, 30, 31, 32, 33, 40, 254, 255, 256, 257, 1000]
+                 1, 2, 30, 31, 32, 33, 40, 254, 255, 256, 257, 1000,
+                 48, 49, 50, 51, 52, 53, 54, 55, 56, 57, 58]
 # RLP's three-byte length form starts at 65536 bytes: rare, expensive, but a real boundary
 HUGE_VALUE_LENGTHS = [65535, 65536, 70000]
 
@@ -29,7 +30,20 @@ def key_nibbly(rnd):
     return bytes(rnd.randrange(256) for _ in range(rnd.randint(1, 2)))
 
 
+# values with STRUCTURE: things that look like RLP (an empty list, a short list, a long-form
+# string header), like an encoded node, like a hash, or that start with zero bytes
+STRUCTURED_VALUES = [
+    b"\xc0", b"\x80", b"\xc2\x01\x02", b"\x00", b"\x00\x00\x00\x00\x00", b"\x00\x01",
+    bytes([0xF8, 0x38]) + b"a" * 56, b"\xc4\x82\x20\x61\x62",          # rlp([hp-leaf-key, 'b'])
+    bytes.fromhex("56e81f171bcc55a6ff8345e692c0f86e5b48e01b996cadc001622fb5e363b421"),  # the blank-root hash
+    bytes.fromhex("c5d2460186f7233c927e7db2dcc703c0e500b653ca82273b7bfad8045d85a470"),  # keccak(b'')
+    b"\xd1" + b"\x80" * 17,                                            # rlp of a 17-item list of blanks
+]
+
+
 def make_value(rnd, length=None):
+    if length is None and rnd.random() < 0.06:
+        return rnd.choice(STRUCTURED_VALUES)
     if length is None:
         length = rnd.choice(HUGE_VALUE_LENGTHS) if rnd.random() < 0.002 else rnd.choice(VALUE_LENGTHS)
     if length == 1:
